@@ -71,12 +71,12 @@ def judge(ctx, res, edges_path, base):
 WQ_INVARIANTS = "FoldEq LayerB Contiguous ScannedExact NoneLost BelowBirthday NoOpenAdjacent ChainedIsUnion SameAsLayerA"
 
 
-def write_wq_cfg(path, maxops, maxnotes, menu):
+def write_wq_cfg(path, maxops, maxnotes, menu, hyg=False):
     with open(path, "w") as f:
         f.write("SPECIFICATION Spec\nCONSTANTS\n  HLo = 0\n  HHi = 13\n  PruningDepth = 4\n  VerifyLookahead = 2\n"
-                "  ShardLeaves = 2\n  Birthday = 2\n  MaxTop = 11\n  MaxOps = %d\n  MaxNotes = %d\n  Menu = %d\n"
-                "VIEW View\nINVARIANTS %s\nPROPERTIES ScanCovers TipMonotone\nCHECK_DEADLOCK FALSE\n"
-                % (maxops, maxnotes, menu, WQ_INVARIANTS))
+                "  ShardLeaves = 2\n  Birthday = 2\n  MaxTop = 11\n  MaxOps = %d\n  MaxNotes = %d\n  Menu = %d\n  Hyg = %s\n"
+                "VIEW View\nINVARIANTS %s\nPROPERTIES ScanCovers TipMonotone PruneLaw\nCHECK_DEADLOCK FALSE\n"
+                % (maxops, maxnotes, menu, "TRUE" if hyg else "FALSE", WQ_INVARIANTS))
 
 
 def wq_stage(ctx):
@@ -104,6 +104,18 @@ def wq_stats(res, st):
             st["tip_" + kind] = st.get("tip_" + kind, 0) + 1
             if "shard-above-scanned" in t:
                 st["tip_shard_above_scanned"] = st.get("tip_shard_above_scanned", 0) + 1
+        elif t.startswith('"prune"'):
+            f = [x.strip().strip('"') for x in t.split(",")]
+            st["prune_" + f[1]] = st.get("prune_" + f[1], 0) + 1
+            for k in f[2:]:
+                if k != "-":
+                    st["prune_" + k] = st.get("prune_" + k, 0) + 1
+        elif t.startswith('"rescan"'):
+            st["rescan"] = st.get("rescan", 0) + 1
+            if "over-scanned" in t:
+                st["rescan_over_scanned"] = st.get("rescan_over_scanned", 0) + 1
+        elif t.startswith('"apart"'):
+            st["apart"] = st.get("apart", 0) + 1
         elif t.startswith('"scan"'):
             st["scan_multi_pool"] = st.get("scan_multi_pool", 0) + 1
             if "extents-differ" in t:
@@ -197,10 +209,10 @@ def run(ctx):
     # (5a) the wallet-level insertion sequence on the model: MC_WalletQueue
     wqd = wq_stage(ctx)
     lib.sany(os.path.join(wqd, "Trace_WalletQueue.tla"))
-    wq_models = [(3, 1, 2, 30000)] if ctx.quick() else [(3, 2, 2, 150000), (4, 2, 1, 60000)]
-    for (maxops, maxnotes, menu, floor) in wq_models:
-        cfg = "MC_WQ_%d_%d_%d.cfg" % (maxops, maxnotes, menu)
-        write_wq_cfg(os.path.join(wqd, cfg), maxops, maxnotes, menu)
+    wq_models = [(3, 1, 2, 30000, False), (3, 0, 0, 3000, True)] if ctx.quick() else [(3, 2, 2, 150000, False), (4, 2, 1, 60000, False), (3, 1, 2, 300000, True)]
+    for (maxops, maxnotes, menu, floor, hyg) in wq_models:
+        cfg = "MC_WQ_%d_%d_%d%s.cfg" % (maxops, maxnotes, menu, "_hyg" if hyg else "")
+        write_wq_cfg(os.path.join(wqd, cfg), maxops, maxnotes, menu, hyg)
         r = lib.tlc(ctx, wqd, "MC_WalletQueue", cfg, workers=8, timeout=3000, coverage=False)
         if r.distinct < floor:
             raise lib.ToolError("vacuity: MC_WalletQueue explored only %d states (%s)" % (r.distinct, cfg))
@@ -257,13 +269,39 @@ def run(ctx):
                           "event %d of the recorded wallet history is not allowed by Trace_Wallet.tla (scan queue shape / "
                           "suggestion order / client progress / termination): %s" % (n, detail[:1200]))
             break
+    # (6) queue hygiene: prune_scan_queue_below and queue_rescans interleaved with everything else, validated against
+    # Trace_WalletQueue.tla only (whole table after every operation)
+    if not ctx.violations:
+        qpath = ctx.path("trace_queue_ops.ndjson")
+        lib.run_bin(os.path.join(wbin, "c01_driver"), [qpath, "queue-ops", "8" if ctx.quick() else "48"],
+                    env_extra={"VERIF_SEED": str(ctx.seed * 100 + 7), "VERIF_SUGGEST": "1"}, timeout=3000)
+        acc3, n3, detail3, r3 = wq_validate(ctx, wqd, qpath)
+        wq_stats(r3, wqstats)
+        if acc3:
+            ctx.traces += n3
+        else:
+            wq_reject(ctx, wqd, qpath, n3, detail3)
+        if wqstats.get("apart", 0):
+            open_ids = {f["id"]: f for f in lib.load_known_findings() if f.get("property") == "C15" and f.get("status") == "open"}
+            kf = open_ids.get("C15-insertion-apart-from-queue-leaves-gap")
+            if kf:
+                lib.known_finding(ctx, "id=%s %s" % (kf["id"], kf["what"][:300]))
+            elif not ctx.violations:
+                with open(qpath) as f:
+                    lines = f.read().splitlines()
+                lib.violation(ctx, {"property": "C15", "kind": "wallet_queue_priorities", "first_unmatched_event": 0,
+                                    "event": None, "expected": None, "history": [json.loads(x) for x in lines[:80]]},
+                              "an insertion apart from the stored queue left the heights between unqueued (the table is not a "
+                              "partition of an interval) and known_findings.json does not list that finding as open")
     if not ctx.violations and (qstats["syncdone"] < 4 or qstats["client_steps"] < 20):
         raise lib.ToolError("vacuity: sync loop not exercised: %s" % qstats)
     # what the wallet-level validation must have seen: batches that found notes in two pools with different shard
     # extents in which a pool's own extent decided the table (Sapling, Orchard; Ironwood on the thorough tier), tip
     # updates through the Verify, the ChainTip and the Historic rule, with and without shard metadata
     need = {"scan_extents_differ": 8, "scan_needs_S": 3, "scan_needs_O": 3, "tip_verify": 4, "tip_verify-empty": 1,
-            "tip_chaintip": 10, "tip_historic": 10, "tip_historic+shard": 1, "tip_shard_above_scanned": 1}
+            "tip_chaintip": 10, "tip_historic": 10, "tip_historic+shard": 1, "tip_shard_above_scanned": 1,
+            "prune_none": 5, "prune_some": 20, "prune_deleted": 5, "prune_demoted": 5, "prune_island": 1,
+            "rescan": 10, "rescan_over_scanned": 3}
     if not ctx.quick():
         need.update({"scan_needs_I": 2, "scan_extents_differ": 30, "tip_shard_above_scanned": 3})
     if not ctx.violations:
